@@ -48,7 +48,7 @@ theorem WakeN.of_closed {n : Nat} {e : Ep} (hc : e.closed = true) (hp : e.pqPend
   ⟨hp, fun h _ => (by rw [hc] at h; cases h), fun h _ _ => (by rw [hc] at h; cases h)⟩
 
 theorem ws_sendMessage (e : Ep) (m : Msg) : WSame e (sendMessage e m) :=
-  ⟨rfl, rfl, rfl, rfl, rfl, fun h => by simp [sendMessage, kaReset, idleReset, h]⟩
+  ⟨rfl, rfl, rfl, rfl, rfl, fun h => by simp [sendMessage, sendReady, kaReset, idleReset, h]⟩
 theorem ws_sendReject (e : Ep) (r : Nat) (m : Msg) : WSame e (sendReject e r m) := ws_sendMessage e _
 theorem ws_mergeSession (e : Ep) (p : PeerInit) : WSame e (mergeSession e p) := ⟨rfl, rfl, rfl, rfl, rfl, id⟩
 theorem ws_sendContact (e : Ep) : WSame e (sendContact e) := ws_sendMessage e _
@@ -92,7 +92,7 @@ theorem encode_ne_nil (m : Msg) : encode m ≠ [] := by
   cases m <;> simp [encode, u8, beBytes, magic]
 
 theorem txBuf_sendMessage_ne (e : Ep) (m : Msg) : (sendMessage e m).txBuf ≠ [] := by
-  simp [sendMessage, kaReset, idleReset, encode_ne_nil]
+  simp [sendMessage, sendReady, kaReset, idleReset, encode_ne_nil]
 
 /-- inside a firing `_process_queue` (one source is about to go): after `sendSegment` either a new
     source was triggered or the buffer holds the segment just written -/
@@ -101,8 +101,8 @@ theorem wake_sendSegment (e : Ep) (it : TxItem) (s : Nat) (hp : e.cfg.privExt = 
   unfold sendSegment
   simp only [hp, Bool.and_false, Bool.false_eq_true, if_false]
   split
-  · exact wake_pqTrigger _ (by simp [sendMessage, kaReset, idleReset, hpp]) (by simpa [sendMessage, kaReset, idleReset] using hs)
-  · refine ⟨by simp [sendMessage, kaReset, idleReset, hpp], fun _ _ => Or.inr ?_, fun _ h => by simp at h⟩
+  · exact wake_pqTrigger _ (by simp [sendMessage, sendReady, kaReset, idleReset, hpp]) (by simpa [sendMessage, sendReady, kaReset, idleReset] using hs)
+  · refine ⟨by simp [sendMessage, sendReady, kaReset, idleReset, hpp], fun _ _ => Or.inr ?_, fun _ h => by simp at h⟩
     exact txBuf_sendMessage_ne e _
 
 /-- one firing of `_process_queue`, entered with the pending flag reset and its own source still counted -/
@@ -163,7 +163,7 @@ theorem wake_writeConn (e : Ep) (n : Nat) (up : Bool) (hi : WakeInv e) : WakeInv
     · exact hi
   · simp only []
     split
-    · exact wake_doClose e hi
+    · exact hi
     · split
       · exact wake_checkSessTerm _ (WakeN.frame hi ⟨rfl, rfl, rfl, rfl, rfl, id⟩)
       · exact WakeN.frame hi ⟨rfl, rfl, rfl, rfl, rfl, id⟩
@@ -367,7 +367,10 @@ theorem wake_step (e : Ep) (ev : Ev) (hp : e.cfg.privExt = false)
     simp only []
     split
     · exact hi
-    · exact wake_pump e n hseg hi
+    · split
+      · exact hi
+      · have h1 : WakeInv { e with txIdle := false } := WakeN.frame hi ⟨rfl, rfl, rfl, rfl, rfl, id⟩
+        exact WakeN.frame (wake_pump { e with txIdle := false } n hseg h1) ⟨rfl, rfl, rfl, rfl, rfl, id⟩
   | rx c =>
     simp only []
     split
